@@ -1378,3 +1378,48 @@ Proof.
     rewrite Wv. apply (x_set_sem hp a _ OK).
   - cbn [wval svec]. apply (x_set_sem hp a [] OK).
 Qed.
+
+(* ------------------------------------------------------------------ array::set(const value &), vector / scalar values *)
+Lemma x_set_val_sem hp a tr d : ares_ok hp a (x_set_val hp a tr d) (s_xsetval (aval hp a) tr d) false.
+Proof.
+  unfold x_set_val. set (nb := set_tr (new_buf (length d) false false) tr).
+  assert (Wn : buf_wf nb) by (apply buf_wf_set_tr_empty; [apply new_buf_wf|reflexivity]).
+  pose proof (alloc_size_ge (length d)) as Hsz.
+  pose proof (buffer_set_sem nb tr 0 d Wn) as B1.
+  assert (C1 : set_cond nb tr 0 (length d) = (tr =? 0) || aligned tr (length d)).
+  { unfold set_cond. subst nb. bsimp. rewrite (proj2 (Nat.leb_le _ _)) by lia. cbn [andb].
+    destruct (Nat.eqb_spec tr 0) as [Z|Z]; cbn [negb andb orb]; [reflexivity|].
+    rewrite Nat.eqb_refl, andb_true_r. unfold aligned at 1. rewrite Nat.mod_0_l by exact Z. reflexivity. }
+  destruct (buffer_set nb tr 0 d) as [b1| |]; [| |contradiction].
+  - destruct B1 as [[K1 [K2 [K3 [K4 K5]]]] [W1 [V1 C]]]. cbn [ares_ok]. split.
+    + apply (P_fresh0 hp a); [|exact W1]. rewrite K1. reflexivity.
+    + unfold s_xsetval. rewrite <- C1, C. unfold D, aval.
+      assert (Hg : forall nb', hget (match a with Some i => hunref hp i | None => hp end ++ [Some nb']) (length hp) = Some nb').
+      { intros nb'. destruct a as [i|].
+        - rewrite hget_app_r by (rewrite length_hunref; lia). rewrite length_hunref, Nat.sub_diag. reflexivity.
+        - rewrite hget_app_r by lia. rewrite Nat.sub_diag. reflexivity. }
+      rewrite Hg. cbn [option_map]. unfold bval. rewrite K4, V1. subst nb. bsimp.
+      change (bview (set_tr (new_buf (length d) false false) tr)) with (@nil byte). rewrite put_nil_0. reflexivity.
+  - cbn [ares_ok]. split; [apply P_same|]. unfold s_xsetval. rewrite <- C1, B1. split; reflexivity.
+Qed.
+
+(* array::content::set_length on a private mutable block *)
+Lemma xsetlen_sem hp i b n cnt acc :
+  hget hp i = Some b -> buf_wf b -> bref b = 1 -> shared b = false -> bimm b = false ->
+  ares_ok hp (Some i) (lift hp (Some i) (do b1 <- x_set_len b n; Ok (hset hp i b1, Some i, 0)))
+    (s_xsetlen (hint_at hp (Some i) cnt acc) (aval hp (Some i)) n) false.
+Proof.
+  intros E W R S I. apply (direct_sem hp i b _ _ tt E R); [|reflexivity].
+  rewrite (hint_private hp i b cnt acc E S I). unfold aval. rewrite E. cbn [option_map].
+  unfold s_xsetlen, bval, guarded. cbn [hsh him hsz orb]. unfold x_set_len.
+  destruct (Nat.eqb_spec (btr b) 0) as [Z|Z]; cbn [negb]; [|reflexivity].
+  destruct (Nat.ltb_spec (bsize b) n) as [Hn|Hn]; [reflexivity|].
+  pose proof W as [L [U A]].
+  destruct (Nat.ltb_spec (bused b) n) as [Hu|Hu].
+  - rewrite wr_ok by (rewrite length_zeros; lia). cbn [bind]. bsimp. split; [exact R|]. split.
+    + unfold buf_wf. bsimp. rewrite !app_length, firstn_length, length_zeros, skipn_length. repeat split; try lia.
+    + rewrite Z. unfold D. do 4 f_equal. unfold resizev, bview. bsimp. list_eq.
+  - cbn [bind]. bsimp. split; [exact R|]. split.
+    + unfold buf_wf. bsimp. repeat split; try lia.
+    + rewrite Z. unfold D. do 4 f_equal. unfold resizev, bview. bsimp. list_eq.
+Qed.
